@@ -52,6 +52,19 @@ def main() -> int:
         d["paths"] = {"/paint": {"get": {"operationId": "list_paint", "parameters": [{"name": "colour", "in": "query", "schema": docs.clone(e)}, {"name": "shade", "in": "query", "schema": {"$ref": "#/components/schemas/Shade"}}],
                                          "responses": {"200": {"description": "ok", "content": {"application/json": {"schema": {"$ref": "#/components/schemas/Paint"}}}}}}}}
         bases.append((f"enum_null_default:{vi}", d, {"enum_null:plain", "enum_null_default"}))
+    # nullable beside an explicit type and a composition keyword (3.0 spelling)
+    Rf = lambda n_: {"$ref": f"#/components/schemas/{n_}"}  # noqa: E731
+    for vi in range(2):
+        d = docs.base_doc("3.0.3", "Nullable Typed Composition")
+        d["components"]["schemas"] = {
+            "Cat": {"type": "object", "properties": {"meow": {"type": "boolean"}}}, "Dog": {"type": "object", "properties": {"bark": {"type": "integer"}}, "required": ["bark"]},
+            "Household": {"type": "object", "required": ["pet"] if vi else [], "properties": {
+                "pet": {"type": "object", "nullable": True, "oneOf": [Rf("Cat"), Rf("Dog")]}, "guard": {"type": "object", "nullable": True, "allOf": [Rf("Dog")]}, "any_pet": {"type": "object", "nullable": True, "anyOf": [Rf("Dog"), Rf("Cat")], "description": "either"},
+                "stamp": {"type": "string", "nullable": True, "anyOf": [{"type": "string", "format": "date"}, {"type": "string", "format": "uuid"}]},
+                "both": {"type": "object", "nullable": True, "allOf": [Rf("Dog"), {"type": "object", "properties": {"extra": {"type": "string"}}}]}}}}
+        d["paths"] = {"/h": {"get": {"operationId": "get_h", "parameters": [{"name": "stamp", "in": "query", "schema": {"type": "string", "nullable": True, "oneOf": [{"type": "string", "format": "date"}, {"type": "string", "format": "uuid"}]}}],
+                                     "responses": {"200": {"description": "ok", "content": {"application/json": {"schema": {"type": "object", "nullable": True, "oneOf": [Rf("Household"), Rf("Dog")]}}}}}}}}
+        bases.append((f"nullable_typed_composition:{vi}", d, {"nullable_typed_composition"}))
     # documents with a nullable composing allOf carrying sibling annotations (3.0 spelling)
     for i in range(12 if quick else 120):
         d, feats = docs.random_doc(("C17n", seed(), i), version="3.0.3", n_ops=2)
@@ -98,7 +111,7 @@ def main() -> int:
                 add(f"json_ascii_enc_{enc}", dn, 1, file_encoding=enc, ensure_ascii=True)
         for p in (1.0, 0.5):
             for kind, mk in (("nullable_typelist", lambda: rewrite.rw_nullable(r, p, "typelist")), ("nullable_member", lambda: rewrite.rw_nullable(r, p, "member")),
-                             ("nullable_ref_member", lambda: rewrite.rw_nullable_ref(r, p)), ("nullable_allof_multi", lambda: rewrite.rw_nullable_allof_multi(r, p)), ("enum_null_union", lambda: rewrite.rw_enum_null(r, p, "plain")), ("enum_null_union_nullable30", lambda: rewrite.rw_enum_null(r, p, "nullable30")),
+                             ("nullable_ref_member", lambda: rewrite.rw_nullable_ref(r, p)), ("nullable_typed_composition", lambda: rewrite.rw_nullable_typed_composition(r, p)), ("nullable_allof_multi", lambda: rewrite.rw_nullable_allof_multi(r, p)), ("enum_null_union", lambda: rewrite.rw_enum_null(r, p, "plain")), ("enum_null_union_nullable30", lambda: rewrite.rw_enum_null(r, p, "nullable30")),
                              ("enum_null_union_typelist31", lambda: rewrite.rw_enum_null(r, p, "typelist31")),
                              ("wrap_ref", lambda: rewrite.rw_wrap_ref(r, p)), ("wrap_ref_allOf", lambda: rewrite.rw_wrap_ref(r, p, "allOf")), ("wrap_ref_anyOf", lambda: rewrite.rw_wrap_ref(r, p, "anyOf")),
                              ("unwrap_ref", lambda: rewrite.rw_unwrap_ref(r, p))):
